@@ -152,7 +152,8 @@ OnDemand == /\ InBody /\ Op.k \in {"from", "star", "import"} /\ FirstNeeded # <<
 \* ---------------------------------------------------------------- _handleReExport / alias binding of one name
 CurExports(s) == IF IsModCls(Cls(s, Cur)) /\ ReadsAll(Top.mod) THEN SeqRange(AllRead(Top.mod)) ELSE {}
 \* returns the new registry state
-BindOne(s, modq, m, orig, as, fallback) ==
+\* the object that `from <m> import orig as as` MOVES into the current module (NoObj: the name is only bound)
+Moved(s, m, orig, as) ==
   LET isM == m # NoObj /\ IsModCls(Cls(s, m))
       ob  == IF ~isM THEN NoObj
              ELSE IF orig \in DOMAIN s.cont[m] THEN s.cont[m][orig] ELSE ResolveName(s, m, <<orig>>, BO)
@@ -164,11 +165,35 @@ BindOne(s, modq, m, orig, as, fallback) ==
       movable == ob # NoObj /\ ob \notin AncestorsOf(Cur) /\ s.objs[ob].par # NoObj
                  /\ ~(IsModCls(Cls(s, ob)) /\ Cls(s, Cur) # "Package")
                  /\ IsModCls(Cls(s, s.objs[ob].par))                  \* an alias of a class member (run = K.run): the member stays
-      move == isM /\ as \in CurExports(s) /\ movable /\ ~originListsIt
-  IN IF move THEN Reparent(s, ob, Cur, as)
+  IN IF isM /\ as \in CurExports(s) /\ movable /\ ~originListsIt THEN ob ELSE NoObj
+BindOne(s, modq, m, orig, as, fallback) ==
+  LET ob == Moved(s, m, orig, as)
+  IN IF ob # NoObj THEN Reparent(s, ob, Cur, as)
      ELSE SetAlias(s, Cur, as, fallback)
 
-ExecFrom == /\ InBody /\ Op.k = "from" /\ FirstNeeded = <<>>
+\* a PACKAGE about to be moved is analysed where it was written, with every module it holds (their relative imports start from
+\* there): the modules below it that are still waiting, outermost first
+ParOf(o) == IF o = NoObj THEN NoObj ELSE st.objs[o].par
+\* (packages nest at most five deep in the projects handed to this spec; no recursion here: TLC's coverage pass does not survive it)
+LiesBelow(o, anc) == LET p1 == ParOf(o)  p2 == ParOf(p1)  p3 == ParOf(p2)  p4 == ParOf(p3)  p5 == ParOf(p4)
+                     IN anc # NoObj /\ anc \in {p1, p2, p3, p4, p5}
+WaitingBelow(ob) == {o \in DOMAIN st.objs : IsMod(o) /\ LiesBelow(o, ob) /\ mstate[ModIdx(o)] = "UNPROCESSED"}
+MovedPackage == IF Op.k # "from" THEN NoObj
+                ELSE LET q == ImportTarget(Op.lvl, Op.m)
+                         ob == IF q = <<>> THEN NoObj ELSE Moved(st, Get(st, q), Op.orig, Op.as)
+                     IN IF ob # NoObj /\ Cls(st, ob) = "Package" /\ WaitingBelow(ob) # {} THEN ob ELSE NoObj
+BeforeMove == /\ InBody /\ Op.k = "from" /\ FirstNeeded = <<>> /\ MovedPackage # NoObj
+              /\ LET w == WaitingBelow(MovedPackage)
+                     \* the order of System._subtree: registration order of the objects
+                     o == CHOOSE x \in w : \A y \in w : x <= y
+                     t == Outermost(ModIdx(o)) IN
+                   /\ unproc' = SelectSeq(unproc, LAMBDA x : x # t)
+                   /\ mstate' = [mstate EXCEPT ![t] = "PROCESSING"]
+                   /\ IF Mod(t).broken
+                        THEN stack' = stack /\ log' = Append(log, <<"broken", t>>)
+                        ELSE stack' = Append(stack, [mod |-> t, pc |-> 1, scope |-> <<mobj[t]>>]) /\ log' = Append(log, <<"start", t>>)
+              /\ UNCHANGED <<st, mobj, classes, phase, post>>
+ExecFrom == /\ InBody /\ Op.k = "from" /\ FirstNeeded = <<>> /\ MovedPackage = NoObj
             /\ LET q == ImportTarget(Op.lvl, Op.m) IN
                  IF q = <<>> THEN UNCHANGED st                         \* "relative import level too high"
                  ELSE st' = BindOne(st, q, Get(st, q), Op.orig, Op.as, Append(q, P(Op.orig)))
@@ -265,7 +290,7 @@ Crashed == /\ phase = "process" /\ st.crash
            /\ phase' = "crashed"
            /\ UNCHANGED <<st, mobj, mstate, unproc, stack, classes, log, post>>
 
-Next == /\ \/ Pick \/ OnDemand \/ ExecFrom \/ ExecStar \/ ExecImport \/ ExecClass \/ ExecEndClass
+Next == /\ \/ Pick \/ OnDemand \/ BeforeMove \/ ExecFrom \/ ExecStar \/ ExecImport \/ ExecClass \/ ExecEndClass
            \/ ExecDef \/ ExecVar \/ ExecAlias \/ ExecStr \/ ExecIvar \/ FinishMod \/ PostProcess \/ Crashed
         /\ UNCHANGED <<pid, sched>>
 Spec == Init /\ [][Next]_vars /\ WF_vars(Next)
